@@ -22,3 +22,29 @@ fn pathdata_new_respects_peer_limit() {
     assert!(path.current_mtu() <= p, "new path starts above the peer's max_udp_payload_size");
     core::mem::forget(path);
 }
+
+// @harness pathdata_new_falls_back_to_min_mtu props=C13 tier=quick kind=proof timeout=900 fn="PathData::new, MtuDiscovery::{on_non_probe_lost,black_hole_detected}" desc="a new path, with MTU discovery on or off, is built with the configured minimum MTU: when four loss bursts of datagrams of the initial size (above the minimum) have been recorded, the black hole is recognised and the estimate falls back to the configured minimum (or stays at the peer's limit if that is lower)"
+#[cfg_attr(kani, kani::proof)]
+#[cfg_attr(kani, kani::unwind(8))]
+#[cfg_attr(verif_replay, test)]
+fn pathdata_new_falls_back_to_min_mtu() {
+    let mut config = TransportConfig::default();
+    let initial: u16 = vk::any();
+    vk::assume(initial > 1200);
+    config.initial_mtu(initial);
+    if vk::any() {
+        config.mtu_discovery_config(None);
+    }
+    let remote = SocketAddr::new(std::net::IpAddr::V4(std::net::Ipv4Addr::new(127, 0, 0, 1)), 4433);
+    let mut path = PathData::new(remote, vk::any(), None, 1, vk::instant(0), &config);
+    assert!(path.current_mtu() == initial);
+    // four separate loss bursts (packet numbers two apart) of full-sized datagrams, nothing of that size acknowledged
+    let mut i = 0u64;
+    while i < 4 {
+        path.mtud.on_non_probe_lost(2 * i, initial);
+        i += 1;
+    }
+    assert!(path.mtud.black_hole_detected(vk::instant(1)), "black hole not recognised on a new path");
+    assert!(path.current_mtu() == 1200, "the estimate does not fall back to the configured minimum MTU");
+    core::mem::forget(path);
+}
